@@ -50,6 +50,10 @@ ENUM_VALUES = list(ENUM_OBJS)
 PREFIX_CHOICES = [rt("al", "pha"), rt("be", "ta")]
 
 
+DEFAULT_OBJ = V(300)          # the default object of a trait definition (held by the CTrait and its handler)
+DEFAULT_LIST = [V(301)]       # a list default (list_copy): the list object itself is the trait's default_value
+
+
 class Leaf(HasTraits):
     value = Any()
     other = Any()
@@ -114,6 +118,8 @@ class Node(HasTraits):
     enum = Enum(ENUM_VALUES)
     lb = List(Tuple(Any(), Float()), maxlen=2)
     # compound validators with static float ranges (validate_trait_complex, case 4): out-of-range numbers fall through
+    dfl = Any(DEFAULT_OBJ)
+    dfll = List(Any, DEFAULT_LIST)
     eis = Either(Int, Str)
     er2 = Either(Range(0.0, 1.0), Range(10.0, 11.0))
     ers = Either(Range(0.0, 1.0), Str)
@@ -236,7 +242,7 @@ def run_case(ci, case, progress):
         if tr is not None and all(tr is not x for x in cyc_traits):
             cyc_traits.append(tr)
     measured = (env["pool"] + env["strs"] + env["bigs"] + [PFX_NAME, PFX_WILD] + MAP_KEYS + MAP_OBJS + ENUM_OBJS[:2]
-                + env["floats"] + cyc_traits)
+                + env["floats"] + cyc_traits + [DEFAULT_OBJ, DEFAULT_LIST[0]])
     mids = [id(x) for x in measured]
     out = []
     getrc = sys.getrefcount
@@ -296,6 +302,12 @@ def run_case(ci, case, progress):
                 setattr(o.leaf, op[1], build(op[2], env))
             elif kind == "selfref":
                 o.selfref = o                      # the object delegates `cyc` to itself: a delegation cycle
+            elif kind == "ctdefault":
+                ct2 = o.trait(op[1])
+                ct2.default_value()
+                ct2.default
+                ct2.default_kind
+                ct2 = None
             elif kind == "basetrait":
                 o.base_trait(op[1])
             elif kind == "vtrait":
